@@ -68,6 +68,7 @@ type Conn struct {
 	OnWrite   func(s *Sent)
 	Misbehave bool // allow reordering within the connection
 	Handling  bool
+	InFlight  bool // a payload has left the queue and its handling has not finished
 	task      *simrt.Task
 	// BeforeDeliver lets a scenario observe state right before a message is handled
 	BeforeDeliver func(d *Delivery)
@@ -131,6 +132,7 @@ func (c *Conn) startReader() {
 			simrt.WaitUntil("recv:"+c.Name, c.pending)
 			it := c.Queue[0]
 			c.Queue = c.Queue[1:]
+			c.InFlight = true
 			// the payload is now in flight inside the read pump of this connection generation:
 			// it is handed to the reader that belongs to it even if the connection is removed
 			// (and re-established) before the stack gets to handle it
@@ -140,6 +142,7 @@ func (c *Conn) startReader() {
 				if w.faultHit("net.drop") {
 					w.Fault("net.drop")
 					w.Logf("fault net.drop %s %s", c.Name, it.tag)
+					c.InFlight = false
 					continue
 				}
 				if w.faultHit("net.dup") {
@@ -155,6 +158,7 @@ func (c *Conn) startReader() {
 					pos := 1 + w.T.Choose(len(c.Queue), "reorder-pos")
 					c.Queue = append(c.Queue[:pos:pos], append([]qitem{it}, c.Queue[pos:]...)...)
 					w.Logf("fault net.reorder %s %s to +%d", c.Name, it.tag, pos)
+					c.InFlight = false
 					continue
 				}
 				if w.faultHit("net.corrupt") {
@@ -166,6 +170,7 @@ func (c *Conn) startReader() {
 				}
 			}
 			c.deliver(it)
+			c.InFlight = false
 		}
 	})
 }
@@ -210,6 +215,11 @@ type Node struct {
 	Addr  string
 	Dev   *spine.DeviceLocal
 	Conns map[string]*Conn // by peer name
+	// QuiesceOwnTraffic: a connection is removed only when no message of that very connection is
+	// being handled (scenarios with exact registry oracles: the properties quantify over removals
+	// "while messages of other peers are being processed"; what a request that overlaps the
+	// removal of its own connection leaves behind is undecided, see DESIGN 10.4)
+	QuiesceOwnTraffic bool
 	Ents  []*LEnt          // the harness's record of the local tree (entity 0 first)
 }
 
@@ -323,6 +333,10 @@ func (n *Node) DisconnectThen(peerName string, then func()) bool {
 	w := n.W
 	c.Closed = true
 	c.Queue = nil
+	if n.QuiesceOwnTraffic && simrt.Self() != nil && c.InFlight {
+		w.Probe("removal-waited-for-own-traffic")
+		simrt.WaitUntil("own-traffic-over:"+c.Name, func() bool { return !c.InFlight })
+	}
 	w.Logf("disconnect %s begin", c.Name)
 	n.Dev.RemoveRemoteDeviceConnection(c.Ski)
 	c.RemovedAt = w.Logf("disconnect %s returned", c.Name)
